@@ -37,19 +37,24 @@ class E:
     def __init__(self, n):
         object.__setattr__(self, 'n', n)
 
+    def _recv(self):
+        # lyast prints Prop(Lambda) as `|x| x.len()`, which parses as a lambda
+        # whose body is `x.len()`: parenthesize lambda receivers here
+        return A.Group(self.n) if self.n.k == 'lambda' else self.n
+
     def __getattr__(self, name):
         if name.startswith('__'):
             raise AttributeError(name)
-        return E(A.Prop(self.n, name))
+        return E(A.Prop(self._recv(), name))
 
     def m(self, name):
-        return E(A.Prop(self.n, name))
+        return E(A.Prop(self._recv(), name))
 
     def __call__(self, *args):
-        return E(A.Call(self.n, [lift(a) for a in args]))
+        return E(A.Call(self._recv(), [lift(a) for a in args]))
 
     def __getitem__(self, i):
-        return E(A.Index(self.n, lift(i)))
+        return E(A.Index(self._recv(), lift(i)))
 
     def _bin(op):
         return lambda self, o: E(A.Bin(op, self.n, lift(o)))
@@ -395,7 +400,8 @@ def list_probes():
           M({1: L().iter().map(lam('x', V('x')))}).str())
     refuse('list.str cyclic', let('a', [1]), V('a').push(V('a')), V('a').str())
     refuse('list.str cyclic via tuple', let('a', [1]), V('a').push(T(V('a'))), V('a').str())
-    refuse('map.str cyclic', let('a', {}), E(A.Assign(A.Index(A.Var('a'), lift(1)), A.Var('a'))), V('a').str())
+    refuse('map.str cyclic', let('a', {}), A.ExprS(A.Assign(A.Index(A.Var('a'), lift(1)), A.Var('a'))), V('a').str())
+    refuse('print cyclic', let('a', [1]), V('a').push(V('a')), V('a'))
     probe('list.str shared not cyclic', let('x', [1]), L(V('x'), V('x'), (V('x'),)).str())
     probe('list.str user str', A.Class('P', None, None, [fn('str', '', pr('str called'), ret('P!'))]),
           L(V('P')(), 's').str(), T(V('P')()).str(), M({1: V('P')()}).str(), M({V('P')(): 1}).len())
@@ -931,6 +937,12 @@ def run_model(stmts):
     return {'out': it.out, 'outcome': outcome, 'cls': None}
 
 
+def split_lines(model):
+    """one print() may write several physical lines"""
+    model['out'] = '\n'.join(model['out']).split('\n') if model['out'] else []
+    return model
+
+
 def main(argv):
     verbose = '-v' in argv
     pat = None
@@ -946,7 +958,7 @@ def main(argv):
     failures = []
     for p, src, real in zip(probes, srcs, reals):
         try:
-            model = run_model(p.stmts)
+            model = split_lines(run_model(p.stmts))
         except RecursionError:
             model = {'out': [], 'outcome': 'python-recursion', 'cls': None}
         except Exception as e:      # a bug in the model is a failure, not a crash of the tester
